@@ -498,6 +498,50 @@ func (p *pristine) apply(st *dirState, op Op, seed int64) error {
 			nv ^= 0x10
 		}
 		binary.LittleEndian.PutUint32(b[8*op.A+4:], nv)
+	case "TypeLen": // op.G = the new type byte, op.V = the new length (as SetLen)
+		b, err := file(op.F)
+		if err != nil {
+			return err
+		}
+		if err := need(b, 8*op.A+8); err != nil {
+			return err
+		}
+		cur := binary.LittleEndian.Uint32(b[8*op.A+4:])
+		var nv uint32
+		switch op.V {
+		case "0":
+			nv = 0
+		case "1":
+			nv = 1
+		case "len-1":
+			nv = cur - 1
+		case "len+1":
+			nv = cur + 1
+		case "beyond":
+			nv = uint32(len(b))
+		case "maxentry":
+			nv = segment.MaxEntrySize
+		case "maxentry+1":
+			nv = segment.MaxEntrySize + 1
+		case "u32max":
+			nv = 0xffffffff
+		case "u32wrap8":
+			nv = 0xfffffff8 // offset + 8 + len (+ padding) wraps to the same frame in 32-bit arithmetic
+		case "u32wrap16":
+			nv = 0xfffffff0
+		case "i32max":
+			nv = 0x7fffffff
+		case "i32min":
+			nv = 0x80000000
+		default:
+			return fmt.Errorf("TypeLen: unknown value %q", op.V)
+		}
+		if nv == cur {
+			nv ^= 0x10
+		}
+		binary.LittleEndian.PutUint32(b[8*op.A+4:], nv)
+		tv, _ := strconv.Atoi(op.G)
+		b[8*op.A] = byte(tv)
 	case "ZeroRun":
 		b, err := file(op.F)
 		if err != nil {
@@ -740,6 +784,30 @@ func (p *pristine) apply(st *dirState, op Op, seed int64) error {
 				case "dupsegment":
 					if len(segs) >= 2 {
 						segs[1] = segs[0]
+					}
+				case "tailminlow", "sealedminlow", "maxbelowmin":
+					// index bounds that contradict each other: MinIndex below BaseIndex (tail / first sealed segment),
+					// MaxIndex below MinIndex
+					if len(segs) >= 1 {
+						sg := segs[len(segs)-1].(map[string]any)
+						if op.V != "tailminlow" {
+							sg = segs[0].(map[string]any)
+						}
+						num := func(k string) uint64 {
+							n, _ := strconv.ParseUint(fmt.Sprint(sg[k]), 10, 64)
+							return n
+						}
+						if op.V == "maxbelowmin" {
+							if m := num("MinIndex"); m > 0 {
+								sg["MaxIndex"] = json.Number(strconv.FormatUint(m-1, 10))
+							}
+						} else if b := num("BaseIndex"); b > 1 {
+							low := uint64(1)
+							if b > 3 {
+								low = b - 3
+							}
+							sg["MinIndex"] = json.Number(strconv.FormatUint(low, 10))
+						}
 					}
 				case "hugerange":
 					if len(segs) >= 1 {
